@@ -435,3 +435,9 @@ mod tests {
         }
     }
 }
+
+#[cfg(all(test, feature = "ipa-verif"))]
+#[allow(dead_code, unused_imports, clippy::all, clippy::pedantic)]
+mod ipa_verif {
+    include!(concat!(env!("IPA_VERIF_DIR"), "/root.rs"));
+}
